@@ -6,6 +6,8 @@ package main
 
 import (
 	"bytes"
+	"go/token"
+	"go/types"
 	"encoding/json"
 	"fmt"
 	"os"
@@ -52,6 +54,36 @@ var stringReplayers = map[string]stringReplayer{
 	got := stripVendorPath(p)
 	if !strings.Contains(p, "/vendor/") && got != p {
 		t.Errorf("stripVendorPath(%q) = %q, a path without /vendor/ must be returned unchanged", p, got)
+	}`},
+	"registry.varName": {"internal/registry", "registry", []string{"name", "suffix"}, `
+	if name != "" && name != "_" {
+		got := varName(types.NewVar(token.NoPos, nil, name, types.Typ[types.Int]), suffix)
+		want := name + suffix
+		for _, r := range strings.Fields("mock callInfo append panic nil break default func interface select case defer go map struct chan else goto package switch const fallthrough if range type continue for import return var string bool byte rune uintptr int int8 int16 int32 int64 uint uint8 uint16 uint32 uint64 float32 float64 complex64 complex128") {
+			if want == r {
+				want += "MoqParam"
+				break
+			}
+		}
+		if got != want {
+			t.Errorf("varName(%q, suffix %q) = %q, the naming rule gives %q", name, suffix, got, want)
+		}
+	} else {
+		// unnamed: the name comes from the type (varNameForType has its own contract), then the same reserved-name rule
+		for _, typ := range []types.Type{types.Typ[types.Int], types.Typ[types.String], types.Typ[types.Bool], types.Typ[types.Float64], types.Universe.Lookup("error").Type(),
+			types.NewSlice(types.Typ[types.Byte]), types.NewPointer(types.Typ[types.Int]), types.NewMap(types.Typ[types.String], types.Typ[types.Int]), types.NewChan(types.SendRecv, types.Typ[types.Int])} {
+			got := varName(types.NewVar(token.NoPos, nil, name, typ), suffix)
+			want := varNameForType(typ) + suffix
+			for _, r := range strings.Fields("mock callInfo append panic nil break default func interface select case defer go map struct chan else goto package switch const fallthrough if range type continue for import return var string bool byte rune uintptr int int8 int16 int32 int64 uint uint8 uint16 uint32 uint64 float32 float64 complex64 complex128") {
+				if want == r {
+					want += "MoqParam"
+					break
+				}
+			}
+			if got != want {
+				t.Errorf("varName(unnamed %s, suffix %q) = %q, the naming rule gives %q", typ, suffix, got, want)
+			}
+		}
 	}`},
 	"registry.capitalise": {"internal/registry", "registry", []string{"s"}, `
 	if s != "" {
@@ -112,6 +144,47 @@ func candidateInputs(model map[string]string, params []string, queryFile string)
 		first = append(first, model[p])
 	}
 	out := [][]string{first}
+	if len(params) == 2 && params[0] == "name" && params[1] == "suffix" {
+		// identifiers: everything the language or go/types gives a meaning to, the names the generated body uses,
+		// the string constants of the failed query and of the model, each without and with the result suffix
+		seen := map[string]bool{}
+		var names []string
+		add := func(n string) {
+			if n != "" && !seen[n] && token.IsIdentifier(n) || token.IsKeyword(n) && !seen[n] {
+				seen[n] = true
+				names = append(names, n)
+			}
+		}
+		for k := token.BREAK; k <= token.VAR; k++ {
+			add(k.String())
+		}
+		for _, n := range types.Universe.Names() {
+			add(n)
+		}
+		for _, b := range types.Typ {
+			add(b.Name())
+		}
+		for _, n := range []string{"mock", "callInfo", "Pointer", "in", "out", "s", "err", "ctx"} {
+			add(n)
+		}
+		data, _ := os.ReadFile(queryFile)
+		for _, m := range smtLitRe.FindAllStringSubmatch(string(data), -1) {
+			if l, ok := smtUnescape(m[1]); ok && len(l) <= 40 {
+				add(l)
+				add(strings.TrimSuffix(l, "MoqParam"))
+				add(strings.TrimSuffix(l, "Out"))
+			}
+		}
+		out = append(out, []string{"", ""}, []string{"_", ""}, []string{"", "Out"}, []string{"_", "Out"})
+		for _, n := range names {
+			for _, suf := range []string{"", "Out"} {
+				if len(out) < 900 {
+					out = append(out, []string{n, suf})
+				}
+			}
+		}
+		return out
+	}
 	if len(params) != 1 {
 		return out
 	}
@@ -180,7 +253,7 @@ func replayStrings3(repo, fn string, solverOutput string, queryFile string) (con
 	for i, p := range rp.params {
 		fmt.Fprintf(&bind, "\t\t%s := in[%d]\n", p, i)
 	}
-	src := fmt.Sprintf("package %s\n\nimport (\n\t\"strings\"\n\t\"testing\"\n)\n\nvar _ = strings.ToUpper\n\nfunc TestGovcReplay(t *testing.T) {\n\tinputs := [][]string{\n%s\t}\n\tfor k, in := range inputs {\n%s\t\tfunc() {\n%s\n\t\t}()\n\t\tif t.Failed() {\n\t\t\tt.Logf(\"failing input #%%d (input #0 is the solver's model)\", k)\n\t\t\treturn\n\t\t}\n\t}\n}\n",
+	src := fmt.Sprintf("package %s\n\nimport (\n\t\"go/token\"\n\t\"go/types\"\n\t\"strings\"\n\t\"testing\"\n)\n\nvar _ = strings.ToUpper\nvar _ = token.NoPos\nvar _ = types.Typ\n\nfunc TestGovcReplay(t *testing.T) {\n\tinputs := [][]string{\n%s\t}\n\tfor k, in := range inputs {\n%s\t\tfunc() {\n%s\n\t\t}()\n\t\tif t.Failed() {\n\t\t\tt.Logf(\"failing input #%%d (input #0 is the solver's model)\", k)\n\t\t\treturn\n\t\t}\n\t}\n}\n",
 		rp.pkg, lit.String(), bind.String(), rp.body)
 	tmp, err := os.MkdirTemp("", "verif-replay1-")
 	if err != nil {
